@@ -34,6 +34,24 @@ for d in sorted(glob.glob(os.path.join(V, "seeded", "*"))):
     out.append("| %s | %s | %s | %s | %s |" % (os.path.basename(d), m.get("property"), what,
                ("`./check %s`: " % m.get("property") + ", ".join(keys)) if m.get("detected") else "**not detected**",
                m.get("history", "").replace("|", "/")))
+out.append("\n### 10.5 What is proved, per property (generated from coq/props/*.v and MANIFEST.json)\n")
+man = json.load(open(os.path.join(V, "MANIFEST.json")))
+claimed = {c["property_id"]: c for c in man["checks"]}
+out.append("| id | claim | model files | theorems (all `Closed under the global context`; `_refuted` = witness that a hypothesis/envelope is needed) |")
+out.append("|---|---|---|---|")
+for pid in sorted(claimed):
+    pf = os.path.join(V, "coq", "props", pid + ".v")
+    if not os.path.exists(pf):
+        continue
+    txt = open(pf).read()
+    models = sorted(set(re.findall(r"model\.([A-Za-z0-9_]+)", txt)))
+    thms = re.findall(r"(?m)^Theorem\s+([A-Za-z0-9_']+)", txt)
+    short = [t[len(pid) + 1:] if t.startswith(pid + "_") else t for t in thms]
+    partial = "partial" if claimed[pid]["level_claimed"]["text"].startswith("PARTIAL") else "full"
+    out.append("| %s | %s | %s | %d: %s |" % (pid, partial, ", ".join(m + ".v" for m in models), len(thms), ", ".join(short)))
+na = man.get("not_applicable", [])
+if na:
+    out.append("\nNot claimed at the moment: " + "; ".join("%s (%s)" % (n["property_id"], n["reason"]) for n in na))
 block = "\n".join(out) + "\n"
 p = os.path.join(V, "DESIGN.md")
 s = open(p).read()
